@@ -5,6 +5,7 @@
 From Coq Require Import String Ascii List Bool NArith.
 Require Import TT.Model.Str TT.Model.Pipeline TT.Spec.TsLex TT.Spec.TsModule TT.Spec.TsObs TT.Spec.C01Wf TT.Model.C01Emit.
 Require Import TT.Model.TypeParse TT.Proofs.LexFacts TT.Proofs.C01Holes TT.Proofs.C01Skeleton TT.Proofs.C01TypeHole TT.Proofs.C01Lex.
+Require Import TT.Spec.C01WfProp TT.Proofs.C01Wrapper TT.Proofs.C01HoleLex TT.Proofs.C01Text TT.Proofs.C01Reflect TT.Proofs.C01Prefix TT.Proofs.C01TextCmd.
 Import ListNotations.
 
 (* ---- hole lemmas (C01_holes, per class, on the complement of the recorded classes) ---- *)
@@ -161,15 +162,128 @@ Theorem C01_index_tokens_ok : forall ms,
   forallb item_ok (map IExportStar ms) = true.
 Proof. exact index_tokens_ok. Qed.
 
+(* ---- deepening round 7 ---- *)
+(* the return / payload type hole: add_types_prefix of the rendered type. Its token rendering ptoks puts  types .  in
+   front of the leaves the prefixing reaches; consumed by ptype like the unprefixed rendering *)
+Theorem C01_type_hole_prefixed_render : forall g t rest,
+  leaves_ok g t = true -> tdepth t < TYF -> stop rest ->
+  exists ty, ptype (ptoks g t ++ rest) = Some (ty, rest) /\ ty_ok ty = true.
+Proof. exact prefixed_ptype. Qed.
+
+(* plain-mode command wrapper template (commands.ts), token level: signature AND body.
+     export async function NAME ( [params : types . P] ) : Promise < RET > { return invoke ( 'cmd' [, params] ) ; }
+   For any binding name, any identifier name P, any command-name literal and any return-type tokens that the type
+   parser consumes one level below the top, p_item returns the function item with exactly this body and the rest
+   untouched, and item_ok holds: the statement grammar pse accepts the body *)
+Theorem C01_skeleton_wrapper : forall name pty ret cmd rest,
+  is_binding_name name = true -> (forall n, pty = Some n -> is_ident_name n = true) -> good_ret ret ->
+  exists ps t,
+    p_item (wrapper_toks name pty ret cmd ++ rest) = Some (IFunction true name ps (Some t) (wrapper_body (has_params pty) cmd), rest) /\
+    map (fun p => fst (fst p)) ps = (if has_params pty then [L "params"] else []) /\
+    item_ok (IFunction true name ps (Some t) (wrapper_body (has_params pty) cmd)) = true.
+Proof. exact skeleton_wrapper. Qed.
+(* on the model's commands every hole premise is discharged: the command name is [A-Za-z][A-Za-z0-9_]* outside the
+   reserved-word class, the return type has identifier leaves and nesting below 63; every token is well formed *)
+Theorem C01_wrapper_tokens_ok : forall g c rest,
+  plain_ident (cmd_name c) = true -> kf_reserved_fn (cmd_name c) = false -> ret_in_budget g c = true ->
+  exists ps t,
+    p_item (cmd_wrapper_toks g c ++ rest) = Some (IFunction true (fn_ts c) ps (Some t) (wrapper_body (cmd_has c) (cmd_name c)), rest) /\
+    item_ok (IFunction true (fn_ts c) ps (Some t) (wrapper_body (cmd_has c) (cmd_name c))) = true /\
+    forallb tok_ok (cmd_wrapper_toks g c) = true.
+Proof. exact wrapper_tokens_ok. Qed.
+
+(* ---- lexing of name / key / literal holes (C01_lex for these classes) ---- *)
+(* a literal hole: EVERY well-formed body (escapes included), in front of EVERY continuation *)
+Theorem C01_str_hole_lex : forall (Q : str -> Prop) q b,
+  is_quote q -> hole_ok (HStr q) b = true -> lexes Q (chunk_text (Hole (HStr q) b)) [KStr q b].
+Proof. exact str_hole_lexes. Qed.
+(* function / type names, identifier keys, literals: one token, in front of every continuation that does not start
+   with an identifier character; on its own the chunk lexes to that token *)
+Theorem C01_name_key_hole_lex : forall h s, name_class h s -> hole_ok h s = true -> lexes bnd (chunk_text (Hole h s)) [hole_tok h s].
+Proof. exact hole_lexes. Qed.
+Theorem C01_hole_chunk_lex : forall h s, name_class h s -> hole_ok h s = true -> chunk_lex (Hole h s) = [hole_tok h s].
+Proof. exact hole_chunk_lex. Qed.
+(* the chain rule: C01_lex_compositional_full_statement reduced to one fact per chunk and one condition per boundary *)
+Theorem C01_lex_compositional_chain : forall cs, chain cs -> lexed cs = toks_of cs.
+Proof. exact lex_compositional_chain. Qed.
+Theorem C01_member_line_compositional : forall g k t, leaves_ok g t = true ->
+  let cs := [Hole (HStr DQ) (escape_js k); Fixed [":"%char]; Fixed [" "%char]; Hole HType (render_m g t); Fixed [";"%char]] in
+  lexed cs = toks_of cs.
+Proof. exact member_line_compositional. Qed.
+
+(* ---- TEXT level: whole items and the whole plain-mode types.ts ---- *)
+(* the interface item: lexing the text of the model's chunks = lexing chunk by chunk = the token rendering of
+   C01_interface_tokens_ok; hence the item text is accepted and well formed *)
+Theorem C01_interface_lexed : forall g s,
+  is_binding_name (cs_name s) = true -> forallb (field_leaves_ok g) (listed_fields s) = true ->
+  lexed (interface_chunks g s) = struct_toks g s /\ toks_of (interface_chunks g s) = struct_toks g s.
+Proof. exact interface_lexed. Qed.
+Theorem C01_interface_text_ok : forall g s,
+  is_binding_name (cs_name s) = true -> forallb (fun f => type_in_budget g (cf_ty f)) (listed_fields s) = true ->
+  c01_ok (text (interface_chunks g s)) = true.
+Proof. exact interface_text_ok. Qed.
+(* any sequence of items each of which is good at text level is an accepted, well-formed module *)
+Theorem C01_items_text_ok : forall items, Forall item_text_ok items -> c01_ok (text (concat items)) = true.
+Proof. exact items_c01_ok. Qed.
+Theorem C01_enum_item_text_ok : forall g s, is_binding_name (cs_name s) = true -> item_text_ok (enum_chunks g s).
+Proof. exact enum_item_text_ok. Qed.
+Theorem C01_params_item_text_ok : forall g c, cmd_has c = true -> cmd_in_budget g c = true -> item_text_ok (params_iface_chunks g c).
+Proof. exact params_item_text_ok. Qed.
+(* C01_skeleton_full_statement for the plain-mode types.ts (f = FTypes, g_zod = false), with the hole premises
+   discharged by the budget predicate: the prefix (channel import when a command has a channel) followed by ANY
+   selection of the model's items in ANY order *)
+Theorem C01_plain_types_text_ok : forall g ss cmds items,
+  plain_types_in_budget g ss cmds = true ->
+  (forall cs, In cs items -> In cs (fl_required (plain_types g ss cmds)) \/ In cs (fl_optional (plain_types g ss cmds))) ->
+  c01_ok (text (fl_prefix (plain_types g ss cmds) ++ concat items)) = true.
+Proof. exact plain_types_text_ok. Qed.
+
+(* add_types_prefix (a function on text: suffix stripping, prefix tests) applied to the rendered text of ANY type with
+   identifier leaves is the structural prefixing ptext, and that text lexes to ptoks in front of every admissible continuation *)
+Theorem C01_prefix_text_structural : forall g t, leaves_ok g t = true -> add_types_prefix3 (render_m g t) = ptext g t.
+Proof. exact add_types_prefix3_render. Qed.
+Theorem C01_ret_text_lex : forall g c, leaves_ok g (ret_struct c) = true -> lexes Pc (ret_text g c) (ptoks g (ret_struct c)).
+Proof. exact ret_text_lexes. Qed.
+(* the wrapper item at text level, and C01_skeleton_full_statement for the plain-mode commands.ts (both imports, then ANY
+   selection of the wrappers in ANY order) and for index.ts *)
+Theorem C01_wrapper_item_text_ok : forall g c, wrapper_in_budget g c = true -> item_text_ok (wrapper_chunks g c).
+Proof. exact wrapper_item_text_ok. Qed.
+Theorem C01_plain_commands_text_ok : forall g cmds items,
+  forallb (wrapper_in_budget g) cmds = true ->
+  (forall cs, In cs items -> In cs (fl_required (plain_commands g cmds)) \/ In cs (fl_optional (plain_commands g cmds))) ->
+  c01_ok (text (fl_prefix (plain_commands g cmds) ++ concat items)) = true.
+Proof. exact plain_commands_text_ok. Qed.
+Theorem C01_index_text_ok : forall b items,
+  (forall cs, In cs items -> In cs (fl_required (index_file b))) -> c01_ok (text (fl_prefix (index_file b) ++ concat items)) = true.
+Proof. exact index_text_ok. Qed.
+
+(* ---- the run-time oracle against a Prop-level specification (Spec/C01WfProp.v) ---- *)
+Theorem C01_str_body_reflect : forall q s, str_body_ok q s = true <-> StrBody q s.
+Proof. exact str_body_reflect. Qed.
+Theorem C01_tok_ok_reflect : forall t, tok_ok t = true <-> TokOk t.
+Proof. exact tok_ok_reflect. Qed.
+Theorem C01_item_ok_reflect : forall it, item_ok it = true <-> ItemOk it.
+Proof. exact item_ok_reflect. Qed.
+Theorem C01_wf_module_reflect : forall m toks, wf_module_b m toks = true <-> WfModule m toks.
+Proof. exact wf_module_reflect. Qed.
+
 (* what remains unproved (stated, not asserted):
-   - the text level: that lexing the concatenated chunk texts equals lexing chunk by chunk
-     (C01_lex_compositional_full_statement; evaluated at run time on every generated case);
-   - for the fixed template text and the name / key / literal holes (type holes are done: C01_type_hole_lex);
-   - the item templates not covered above: Zod struct / enum / params schemas, the wrapper functions of commands.ts
-     with their bodies, the listeners of events.ts. For these the run-time oracle and the token-for-token
-     correspondence decide every generated case. *)
+   - C01_skeleton_full_statement outside plain mode (C01_skeleton_remaining_statement): the Zod item templates and the
+     Zod wrappers (zod mode types.ts / commands.ts) and the listeners of events.ts (both modes) are decided at run time
+     only (oracle on every generated case, token-for-token correspondence). Plain-mode types.ts, commands.ts and
+     index.ts are proved above at text level, with the hole premises replaced by the budget predicates
+     (binding names, identifier leaves, nesting within the parser budget);
+   - C01_lex_compositional_full_statement in general: proved per hole class and as a chain rule, and for all chunks of
+     the three plain-mode files (cslex); numeric bare keys (never printed by the model) and Zod expression holes have
+     no lexing lemma. *)
 Definition C01_skeleton_full_statement : Prop :=
   forall g ss cmds evs f items,
+    (forall cs, In cs items -> In cs (fl_required (gen_file g ss cmds evs f)) \/ In cs (fl_optional (gen_file g ss cmds evs f))) ->
+    (forall h, In h (holes (fl_prefix (gen_file g ss cmds evs f) ++ List.concat items)) -> hole_ok (fst h) (snd h) = true) ->
+    c01_ok (text (fl_prefix (gen_file g ss cmds evs f) ++ List.concat items)) = true.
+Definition C01_skeleton_remaining_statement : Prop :=
+  forall g ss cmds evs f items,
+    (f = FEvents \/ (g_zod g = true /\ f <> FIndex)) ->
     (forall cs, In cs items -> In cs (fl_required (gen_file g ss cmds evs f)) \/ In cs (fl_optional (gen_file g ss cmds evs f))) ->
     (forall h, In h (holes (fl_prefix (gen_file g ss cmds evs f) ++ List.concat items)) -> hole_ok (fst h) (snd h) = true) ->
     c01_ok (text (fl_prefix (gen_file g ss cmds evs f) ++ List.concat items)) = true.
@@ -211,6 +325,31 @@ Example C01_ex_skeleton : c01_ok (text (interface_chunks g0 ex_struct)) = true /
   lexed (interface_chunks g0 ex_struct) = toks_of (interface_chunks g0 ex_struct).
 Proof. vm_compute. repeat split. Qed.
 
+Example C01_ex_wrapper_tokens :
+  forallb (fun c => toks_eqb (lexed (wrapper_chunks g0 c)) (cmd_wrapper_toks g0 c) && toks_eqb (toks_of (wrapper_chunks g0 c)) (cmd_wrapper_toks g0 c) &&
+                    plain_ident (cmd_name c) && negb (kf_reserved_fn (cmd_name c)) && ret_in_budget g0 c) ex_wcmds = true.
+Proof. exact wrapper_tokens_example. Qed.
+Example C01_ex_chain :
+  let cs := [Hole HKey (L "userId"); Fixed [":"%char]; Fixed [" "%char]; Hole (HStr DQ) (L "a\""b\x41"); Fixed [";"%char]] in
+  chain cs /\ lexed cs = [KId (L "userId"); P ":"; KStr DQ (L "a\""b\x41"); P ";"].
+Proof. exact chain_example. Qed.
+Example C01_ex_text :
+  forallb (struct_in_budget g0) [ex_struct; ex_enum; ex_empty_enum] = true /\
+  lexed (enum_chunks g0 ex_enum) = enum_item_toks ex_enum /\
+  c01_ok (text (concat (map (struct_chunks g0) [ex_struct; ex_enum; ex_empty_enum]))) = true.
+Proof. exact text_example. Qed.
+Example C01_ex_plain_types :
+  plain_types_in_budget g0 [ex_struct; ex_enum; ex_empty_enum] [ex_cmd] = true /\
+  lexed (params_iface_chunks g0 ex_cmd) = cmd_params_toks g0 ex_cmd /\
+  c01_ok (text (all_chunks (plain_types g0 [ex_struct; ex_enum; ex_empty_enum] [ex_cmd]))) = true.
+Proof. exact plain_types_example. Qed.
+Example C01_ex_str_body : StrBody """"%char (L "a\""b\x41\u{1F600}\0") /\ ~ StrBody """"%char (L "a\7") /\ ~ StrBody "'"%char (L "it's").
+Proof. exact str_body_example. Qed.
+
+Example C01_ex_plain_commands :
+  forallb (wrapper_in_budget g0) ex_wcmds = true /\ c01_ok (text (all_chunks (plain_commands g0 ex_wcmds))) = true.
+Proof. exact plain_commands_example. Qed.
+
 Print Assumptions C01_key_chunk_ok.
 Print Assumptions C01_member_access_ok.
 Print Assumptions C01_rust_ident_is_ident.
@@ -238,3 +377,26 @@ Print Assumptions C01_enum_alias_never_ok.
 Print Assumptions C01_skeleton_params_interface.
 Print Assumptions C01_params_interface_tokens_ok.
 Print Assumptions C01_index_tokens_ok.
+Print Assumptions C01_type_hole_prefixed_render.
+Print Assumptions C01_skeleton_wrapper.
+Print Assumptions C01_wrapper_tokens_ok.
+Print Assumptions C01_str_hole_lex.
+Print Assumptions C01_name_key_hole_lex.
+Print Assumptions C01_hole_chunk_lex.
+Print Assumptions C01_lex_compositional_chain.
+Print Assumptions C01_member_line_compositional.
+Print Assumptions C01_interface_lexed.
+Print Assumptions C01_interface_text_ok.
+Print Assumptions C01_items_text_ok.
+Print Assumptions C01_enum_item_text_ok.
+Print Assumptions C01_params_item_text_ok.
+Print Assumptions C01_plain_types_text_ok.
+Print Assumptions C01_str_body_reflect.
+Print Assumptions C01_tok_ok_reflect.
+Print Assumptions C01_item_ok_reflect.
+Print Assumptions C01_wf_module_reflect.
+Print Assumptions C01_prefix_text_structural.
+Print Assumptions C01_ret_text_lex.
+Print Assumptions C01_wrapper_item_text_ok.
+Print Assumptions C01_plain_commands_text_ok.
+Print Assumptions C01_index_text_ok.
